@@ -73,6 +73,27 @@ fn main() {
             Err(e) => fail(format!("f64 {:?} does not parse back: {}", x, e)),
         }
     }
+    // finite doubles at large: 200000 pseudo-random bit patterns (xorshift64, fixed seed), a 17-significant-digit
+    // mantissa at every decimal exponent, and neighbours of powers of two and ten
+    let mut more: Vec<f64> = vec![];
+    let mut st: u64 = 0x9E3779B97F4A7C15;
+    for _ in 0..200000 { st ^= st << 13; st ^= st >> 7; st ^= st << 17; more.push(f64::from_bits(st)); }
+    for k in -323..=308i32 { let v: f64 = format!("1.2345678901234567e{}", k).parse().unwrap(); more.push(v); more.push(-v); }
+    for k in -1074..=1023i32 { let v = 2f64.powi(k); more.push(v); more.push(f64::from_bits(v.to_bits() + 1)); if v.to_bits() > 0 { more.push(f64::from_bits(v.to_bits() - 1)); } }
+    for x in more {
+        if x.is_nan() { continue; }
+        n += 1;
+        let lf = x.lexical_form().unwrap();
+        if !is_xsd_double(&lf) { fail(format!("f64 {:?} (bits {:#x}) lexical form {:?} is not in the xsd:double lexical space", x, x.to_bits(), lf)); }
+        match f64::try_from_term(x) {
+            Ok(y) => if y.to_bits() != x.to_bits() { fail(format!("f64 {:?} (bits {:#x}) round-trips to {:?} (lexical form {:?})", x, x.to_bits(), y, lf)); },
+            Err(e) => fail(format!("f64 {:?} does not parse back: {}", x, e)),
+        }
+        match f64::try_from_term(lit(&lf, &format!("{}double", xsd))) {
+            Ok(y) => if y.to_bits() != x.to_bits() { fail(format!("f64 {:?} (bits {:#x}) round-trips through its literal {:?} to {:?}", x, x.to_bits(), lf, y)); },
+            Err(e) => fail(format!("f64 literal {:?} does not parse back: {}", lf, e)),
+        }
+    }
     // short lexical forms
     let alpha = [b'0', b'1', b'9', b'+', b'-', b' ', b'a', b'.'];
     for a in alpha { for b in alpha { for len in 0..=2usize {
